@@ -564,3 +564,53 @@ def c09_wrapper_hooks(res):
                                          f"_worker_init_fn never touches {sorted(lists)}"),
                    model=None if ok else {"class": cd.name, "owned": sorted(mem)})
     return n
+
+
+def per_sample_indices_agree(res, rel="kappadata/collators/kd_mix_collator.py", cls="KDMixCollator", fn="collate",
+                             arrays=("use_cutmix", "bbox", "lamb")):
+    """in the per-sample loop of the mix collator the index that selects the operation / box is the index that selects the
+    weight (sample i's image must be mixed with the weight its label row i is mixed with)"""
+    m, f = find_func(rel, cls, fn)
+    name = f"{rel}::{cls}.{fn}:frame:per-sample-selectors-use-one-index"
+    if f is None:
+        add_direct(res, name, "frame", False, undecided=True, detail="function not found")
+        return
+    bad, seen = [], 0
+    for loop in [n for n in ast.walk(f) if isinstance(n, ast.For) and isinstance(n.target, ast.Name)]:
+        var = loop.target.id
+        for n in ast.walk(loop):
+            if isinstance(n, ast.Subscript) and isinstance(n.value, ast.Name) and n.value.id in arrays and isinstance(n.ctx, ast.Load):
+                seen += 1
+                idx = ast.unparse(n.slice)
+                if idx != var:
+                    bad.append(f"{rel}:{n.lineno} {n.value.id}[{idx}] (loop variable is {var})")
+    add_direct(res, name, "frame", not bad and seen > 0, undecided=(seen == 0), where=f"{rel}:{f.lineno}",
+               note="use_cutmix / bbox / lamb are all subscripted with the loop variable of the per-sample loop",
+               detail="; ".join(bad) if bad else ("" if seen else "no per-sample loop found"), model={"sites": bad} if bad else None)
+
+
+def mix_wrapper_single_draw(res, rel="kappadata/wrappers/sample_wrappers/kd_mix_wrapper.py", cls="KDMixWrapper"):
+    """image-only and label-only accessors are projections of the joint accessor, whose only random source is a generator
+    keyed by seed + idx (so the three requests describe the same draw)"""
+    m, gx = find_func(rel, cls, "getitem_x")
+    _, gc = find_func(rel, cls, "getitem_class")
+    _, gxc = find_func(rel, cls, "getitem_xclass")
+    name = f"{rel}::{cls}:frame:accessors-share-one-seeded-draw"
+    if not (gx and gc and gxc):
+        add_direct(res, name, "frame", False, undecided=True, detail="accessor not found")
+        return
+    bad = []
+    for f, k in ((gx, 0), (gc, 1)):
+        src = ast.unparse(f.body[-1]) if f.body else ""
+        if "self.getitem_xclass(idx" not in src or not src.rstrip().endswith(f"[{k}]"):
+            bad.append(f"{f.name} is not `self.getitem_xclass(idx, ...)[{k}]`")
+    keyed = False
+    for n in ast.walk(gxc):
+        if isinstance(n, ast.Call) and ast.unparse(n.func).endswith("default_rng"):
+            arg = ast.unparse(n)
+            keyed = "self.seed + idx" in arg
+    if not keyed:
+        bad.append("getitem_xclass does not create its generator from self.seed + idx")
+    bad += global_random_reads(m.classes[cls], rel)
+    add_direct(res, name, "frame", not bad, where=rel, note="getitem_x / getitem_class project getitem_xclass; its generator is default_rng(seed + idx)",
+               detail="; ".join(bad), model={"sites": bad} if bad else None)
